@@ -531,7 +531,7 @@ class RootingAnalysis:
                     if s.ref.name.endswith('Popen_safe'):
                         if not call.args:
                             raise Undecided(f'{q}: Popen_safe without positional command: {short(call)}')
-                        els = _command_operands(call.args[0])
+                        els = _command_operands(call.args[0], Flow(self.funcs[q], nested=False).defs if q in self.funcs else None)
                         out += [(e, 'Popen_safe(file operand)', 'rooted') for e in els]
                     elif s.forwards == 'varargs':
                         out += [(e, f'self.{meth}->{lab}', 'rooted') for e, lab in self._prim_exprs(call, s.ref.name)]
@@ -583,21 +583,29 @@ class RootingAnalysis:
         return s
 
 
-def _command_operands(e: ast.AST) -> T.List[ast.AST]:
-    """File operands of a command line built as `prefix + ['-x', path]`: the non-constant elements of list displays."""
+def _command_operands(e: ast.AST, defs: T.Optional[T.Dict[str, T.List[ast.AST]]] = None) -> T.List[ast.AST]:
+    """File operands of a command line built as `prefix + ['-x', path]`: the non-constant elements of list displays, also when a
+    part is a local all of whose bindings are list displays (`args = [...] if c else [...]; prefix + args`)."""
     out: T.List[ast.AST] = []
     lists = 0
 
-    def rec(x: ast.AST) -> None:
+    def rec(x: ast.AST, depth: int = 0) -> None:
         nonlocal lists
         if isinstance(x, ast.BinOp) and isinstance(x.op, ast.Add):
-            rec(x.left)
-            rec(x.right)
+            rec(x.left, depth)
+            rec(x.right, depth)
         elif isinstance(x, ast.List):
             lists += 1
             out.extend(el for el in x.elts if not isinstance(el, ast.Constant))
+        elif isinstance(x, ast.IfExp):
+            rec(x.body, depth)
+            rec(x.orelse, depth)
         elif isinstance(x, ast.Name):
-            pass    # the command prefix (strip binary)
+            ds = (defs or {}).get(x.id, [])
+            if ds and depth < 3 and all(isinstance(d_, (ast.List, ast.IfExp, ast.BinOp)) for d_ in ds):
+                for d_ in ds:
+                    rec(d_, depth + 1)
+            # otherwise: the command prefix (strip binary)
         else:
             raise Undecided(f'command line shape not understood: {short(x)}')
     rec(e)
